@@ -103,6 +103,30 @@ func patternPopulation(c *ctx, forC10 bool) []patCase {
 			rec(nil)
 		}
 	}
+	// 4 and 5 operands over a small pool in every tier (followpos must skip runs of nullable operands, and must stop)
+	small := []*reNode{quantified(lit('a'), qStar), quantified(lit('b'), qOpt), group(alt(lit('c'), quantified(lit('d'), qStar)), quant{}), lit('a'), lit('d'), quantified(lit('c'), qPlus)}
+	for n := 4; n <= 5; n++ {
+		var rec2 func(pre []*reNode)
+		rec2 = func(pre []*reNode) {
+			if len(pre) == n {
+				hasNull := false
+				for _, k := range pre {
+					if k.nullable() {
+						hasNull = true
+					}
+				}
+				if hasNull {
+					add(fmt.Sprintf("nullcat%d/s%d", n, idx), cat(append([]*reNode{}, pre...)...), fmt.Sprintf("concatenations_of_%d_operands_small_pool", n))
+					idx++
+				}
+				return
+			}
+			for _, k := range small {
+				rec2(append(pre, k))
+			}
+		}
+		rec2(nil)
+	}
 	// nested stars and repetition ranges over groups
 	for i, t := range []*reNode{
 		group(group(lit('a'), qStar), qStar), group(group(alt(lit('a'), lit('b')), qStar), qPlus),
